@@ -265,6 +265,16 @@ def run(ctx) -> None:
     check_inner_bound_merge_complete(ctx, "C08.R6")
     check_spec_recomputation_inputs(ctx, "C08.R9")
     check_scope_recomputation_inputs(ctx, "C08.R9")
+    # 'no narrowing' (None) is what "**" and an unset select without a graph selection mean — an explicit list of names
+    # is a narrowing even when it names every output (nodes no output depends on, with their private inputs, drop out
+    # of the scope and of the reported spec): under 'select was given and is not "**"' no return of the resolver is None
+    rrs9 = db.func("runners._shared.validation.resolve_runtime_selected")
+    p_sel9 = (rrs9.positional_params + ["select"])[0]
+    r9 = ctx.cfg(rrs9)
+    val9 = {f"{p_sel9} is _UNSET_SELECT": False, f"{p_sel9} is not _UNSET_SELECT": True, f"{p_sel9} == '**'": False, f"{p_sel9} != '**'": True}
+    live9 = reachable(r9.entry, specialize(val9, r9))
+    none_rets = [n for n in live9 if n.kind == "stmt" and isinstance(n.ast, ast.Return) and (n.ast.value is None or isinstance(n.ast.value, ast.Constant) and n.ast.value.value is None)]
+    rep.add("C08.R9", f"{rrs9.qname}:explicit-selection-narrows", not none_rets, f"{rrs9.module.rel}:{none_rets[0].lineno if none_rets else rrs9.lineno}", "an explicit list of names is always returned as a selection" if not none_rets else f"an explicit run-time selection can be normalised to 'no narrowing' (line {none_rets[0].lineno}): validation then uses the un-narrowed graph.inputs although g.select(...).inputs reports a narrower spec — supplying every reported required input is rejected for a private input of an output-less node")
     check_cycle_decomposition_agrees(ctx, "C08.R10")
     check_single_pass_accumulators(ctx, "C08.R12")
     # ---- R11 --------------------------------------------------------------------
